@@ -166,3 +166,18 @@ def embeddings(seq, observed):
     """Offsets at which ``seq`` occurs contiguously in ``observed`` (bounds ignored)."""
     L = len(seq)
     return [o for o in range(len(observed) - L + 1) if observed[o: o + L] == list(seq)]
+
+
+# ---- exact constants ------------------------------------------------------------------------------------
+def as_dtype(value, dtype):
+    """The constant a tensor of ``dtype`` holds when filled with the Python float ``value``: the value
+    itself for float64, the nearest single for float32, the integer for int64 (plain Python, no torch)."""
+    import struct
+
+    if dtype == "int64":
+        return int(value)
+    if dtype == "float32":
+        return struct.unpack("f", struct.pack("f", value))[0]
+    if dtype == "float64":
+        return float(value)
+    raise ValueError(dtype)
